@@ -959,6 +959,7 @@ def r152(ctx, repo):
     if _filter_stateless(ctx, filt, call):
         _inversion(ctx, filt, call)
     _digest_coverage(ctx, repo, filt)
+    _array_digest_order(ctx, repo)
 
     # PolygonFilter.point_in_poly uses the same routine
     pp = repo.func(POLY, "PolygonFilter.point_in_poly")
@@ -1527,6 +1528,31 @@ def _digest_coverage(ctx, repo, filt):
                "inputs")
 
 
+def _array_digest_order(ctx, repo):
+    """the bytes digested for an array are its elements in logical (C)
+    order: equal vertex arrays hash equal whatever their memory layout, and
+    transposed contents do not collide"""
+    UTIL = "dclab/util.py"
+    f = repo.func(UTIL, "obj2bytes")
+    calls = [c for c in walk(f) if isinstance(c, ast.Call) and last_attr(
+        c) in ("tobytes", "tostring")]
+    if not calls:
+        raise AnalysisError("util.obj2bytes: array serialisation not found")
+    bad = None
+    for c in calls:
+        o = kwarg(c, "order", 0)
+        if o is not None and const_str(o) != "C":
+            bad = c
+    ctx.ob("R15.2", bad is None,
+           "arrays are digested in logical order (tobytes() / order='C')"
+           if bad is None else
+           f"`{short(bad, 40)}` digests the memory image: a Fortran-ordered "
+           "vertex array hashes like its transpose, equal polygons in "
+           "different layouts hash differently – the cached classification "
+           "is kept / dropped wrongly", node=bad or calls[0],
+           label="array digest order")
+
+
 def _is_diagnostic(call):
     """logging / print / warnings calls do not change the data"""
     n = call_name(call) or ""
@@ -1558,6 +1584,7 @@ def _inversion(ctx, filt, call):
     if not rets:
         raise AnalysisError("PolygonFilter.filter: no return")
     INV = ("np.invert", "np.logical_not", "np.bitwise_not")
+    identity = []
 
     def flag(e, inverted):
         """truth value of a test on self.inverted (None: not such a test)"""
@@ -1572,6 +1599,8 @@ def _inversion(ctx, filt, call):
                 l, r = r, l
             if is_self_attr(l, "inverted") and isinstance(
                     r, ast.Constant) and isinstance(r.value, bool):
+                if isinstance(e.ops[0], (ast.Is, ast.IsNot)):
+                    identity.append(e)
                 if isinstance(e.ops[0], (ast.Is, ast.Eq)):
                     return inverted == r.value
                 if isinstance(e.ops[0], (ast.IsNot, ast.NotEq)):
@@ -1704,7 +1733,13 @@ def _inversion(ctx, filt, call):
                                 "return the mask")
         got[inverted] = r
     ok = got == {False: 0, True: 1}
-    if ok:
+    if ok and identity:
+        ok = False
+        why = (f"`{short(identity[0], 40)}` tests the identity of the "
+               "inversion flag with a bool literal: a flag that is truthy "
+               "but not the object True (numpy.bool_ from a comparison or a "
+               "loaded session, 1) is treated as not inverted")
+    elif ok:
         why = ""
     elif got == {False: 0, True: 0}:
         why = ("the mask is returned as computed also for an inverted "
@@ -2277,6 +2312,34 @@ def _unique_id_rule(ctx, repo):
            "taken one replaced by an unused one, the allocator ends above "
            "the id assigned" if bad is None else bad, node=su,
            label="id allocation")
+    # registration is the last effect of the constructor: nothing that can
+    # raise runs after the instance entered the registry
+    init = methods["__init__"]
+    apps = [n for n in walk(init) if isinstance(n, ast.Call) and last_attr(
+        n) in ("append", "add", "insert") and "instances" in txt(n.func)]
+    if len(apps) != 1:
+        raise AnalysisError("PolygonFilter.__init__: registration in "
+                            "`instances` not found")
+    reg = apps[0]
+    while not isinstance(reg, ast.stmt):
+        reg = reg.parent
+    from ..cfg import CFG
+    cfg = CFG(init)
+    after = cfg.reach(cfg.ids_of(reg),
+                      avoid_edge=lambda a, lab, b: lab == "x")
+    late = [n_ for n_ in cfg.nodes if n_.id in after and n_.ast is not None
+            and n_.kind in ("stmt", "test", "for", "with_enter")
+            and any(isinstance(c, ast.Call) and not _is_diagnostic(c)
+                    for c in ast.walk(n_.ast.test if n_.kind == "test"
+                                      else n_.ast))]
+    ctx.ob("R15.3", not late,
+           "the instance enters the registry as the last effect of the "
+           "constructor (no call can fail afterwards)" if not late else
+           f"`{short(late[0].ast, 40)}` runs after the instance was added "
+           "to `instances`: when it raises, a half-built instance keeps its "
+           "identifier in the registry (later imports get another id, "
+           "save_all writes a filter that never existed)",
+           node=late[0].ast if late else reg, label="registered last")
     # _load hands the id of the header to _set_unique_id
     load = methods["_load"]
     calls = [c for c in find_calls(load, attr="_set_unique_id")]
@@ -2373,10 +2436,11 @@ def run(ctx):
              "consistently through every wrapper in a float64 buffer; "
              "inversion iff self.inverted (filter and copy); vertices read "
              "through the normalising property; filter() stateless; cache "
-             "digests cover the classification inputs", minimum=24)
+             "digests cover the classification inputs (logical array order)",
+             minimum=25)
     ctx.rule("R15.3", "save/_load agree on keys, attribute mapping, header "
              "and index parsing, first-'=' split; >= 17 significant digits",
-             minimum=28)
+             minimum=29)
     r151(ctx, repo)
     r152(ctx, repo)
     r153(ctx, repo)
@@ -2549,6 +2613,19 @@ MUTANTS = [
     ("polygon digest omits the axes", POLY,
      ("return hashobj([self.axes, self.points, self.inverted])",
       "return hashobj([self.points, self.inverted])"), "R15.2"),
+    ("instance registered before validation (seeded C15_14)", POLY,
+     ("        self._check_data()\n"
+      "        # if everything worked out, add to instances\n"
+      "        PolygonFilter.instances.append(self)\n",
+      "        PolygonFilter.instances.append(self)\n"
+      "        self._check_data()\n"), "R15.3"),
+    ("inversion flag tested by identity (seeded C15_15)", POLY,
+     ("        if self.inverted:\n            np.invert(f, f)\n",
+      "        if self.inverted is True:\n            np.invert(f, f)\n"),
+     "R15.2"),
+    ("arrays digested in memory order (seeded C15_13)", "dclab/util.py",
+     ("        return obj.tobytes()\n",
+      "        return obj.tobytes(order=\"A\")\n"), "R15.2"),
     ("inversion result discarded", POLY,
      ("            np.invert(f, f)\n", "            np.invert(f)\n"),
      "R15.2"),
@@ -2668,6 +2745,10 @@ TWINS = [
      ("        f = points_in_poly(points=points, verts=self.points)\n",
       "        verts = self.points\n"
       "        f = points_in_poly(points=points, verts=verts)\n")),
+    ("inversion flag compared by equality", POLY,
+     ("        if self.inverted:\n            np.invert(f, f)\n",
+      "        if self.inverted == True:  # noqa: E712\n"
+      "            np.invert(f, f)\n")),
     ("filter returns the complement by expression", POLY,
      ("            np.invert(f, f)\n", "            f = ~f\n")),
     ("save with f-strings", POLY,
